@@ -9,7 +9,11 @@ use sciparse::{
     dataplane_path::{
         model::DpPath,
         onehop::{model::OneHopPath, view::OneHopPathView},
-        standard::{model::StandardPath, view::StandardPathView},
+        standard::{
+            model::{HopField, InfoField, Segment, StandardPath},
+            types::{HopFieldFlags, HopFieldMac, InfoFieldFlags},
+            view::StandardPathView,
+        },
         view::{ScionDpPathView, ScionDpPathViewExt, ScionDpPathViewExtMut, ScionDpPathViewRef},
     },
     identifier::isd_asn::IsdAsn,
@@ -755,4 +759,85 @@ pub fn onehop_cell(cell: &Value) -> (Vec<u8>, Obs, Vec<Value>) {
         }
     }
     (b, o, mis)
+}
+
+/// A TLC model cell (MC_PathModel): the owned StandardPath is built directly (it may have
+/// segments without hop fields or a current_hop_field that does not fit CurrHF).
+pub fn model_cell(cell: &Value) -> (Obs, Vec<Value>) {
+    use sciparse::reexport::tinyvec::{ArrayVec, TinyVec};
+    let mut pvs = Vec::new();
+    let mj = &cell["model"];
+    let mut segments: ArrayVec<[Segment; 3]> = ArrayVec::new();
+    for sg in mj["segs"].as_array().cloned().unwrap_or_default() {
+        let j = sg["inf"].as_u64().unwrap_or(0) as u32;
+        let i = small_inf(j, sg["cd"].as_bool().unwrap_or(false), 1000 * j, &[]);
+        let mut hops: TinyVec<[HopField; 12]> = TinyVec::new();
+        for g in jarr_u(&sg["hop"]) {
+            let h = small_hop(g as u32, 10 + g as u8, false, false);
+            hops.push(HopField { flags: HopFieldFlags::empty(), expiration_units: h.exp, cons_ingress: h.cin, cons_egress: h.ceg, mac: HopFieldMac(h.mac) });
+        }
+        segments.push(Segment { info_field: InfoField { flags: InfoFieldFlags::from_bits_retain(i.flags), segment_id: i.segid, timestamp: i.ts }, hop_fields: hops });
+    }
+    let m0 = StandardPath { current_info_field: mj["ci"].as_u64().unwrap_or(0) as u8, current_hop_field: mj["ch"].as_u64().unwrap_or(0) as u8, segments };
+    let idh = |cin: u16| cin as i64 - 100;
+    let idi = |sid: u16| (sid >> 12) as i64;
+    let mut obs = json!({"class": "model-cell"});
+    let mvalid = catch(|| m0.wire_valid().is_ok());
+    obs["mvalid"] = json!(mvalid.clone().ok());
+    let mut m1 = m0.clone();
+    match catch(|| m1.try_reverse().is_ok()) {
+        Ok(ok) => {
+            if !ok && m1 != m0 {
+                pvs.push(pv("ErrNotAtomic:StandardPath.try_reverse:model-cell", format!("Err but the model changed: {}", mj)));
+            }
+            obs["mrev"] = json!({"ok": ok, "after": model_json(&m1, &idh, &idi)});
+        }
+        Err(msg) => pvs.push(pv("Panic:StandardPath.try_reverse:model-cell", format!("{msg} on model {}", mj))),
+    }
+    match catch(|| m0.expiration()) {
+        Ok(x) => obs["mexp"] = json!(time_to_model(x)),
+        Err(msg) => pvs.push(pv("Panic:StandardPath.expiration:model-cell", format!("{msg} on model {}", mj))),
+    }
+    let dm0 = DpPath::Standard(m0.clone());
+    let mut dm1 = dm0.clone();
+    match catch(|| dm1.try_reverse().is_ok()) {
+        Ok(ok) => {
+            if !ok && dm1 != dm0 {
+                pvs.push(pv("ErrNotAtomic:DpPath.try_reverse:model-cell", "Err but the model changed"));
+            }
+        }
+        Err(msg) => pvs.push(pv("Panic:DpPath.try_reverse:model-cell", msg)),
+    }
+    // an accepted model: its encoding must decode to the same model, and everything that holds
+    // for well-formed headers must hold for the encoding
+    match catch(|| m0.try_encode_to_vec()) {
+        Ok(Ok(enc)) => {
+            match StandardPathView::try_from_slice(&enc) {
+                Ok((v, rest)) if rest.is_empty() => {
+                    if let Ok(back) = catch(|| v.to_model()) {
+                        if back != m0 {
+                            pvs.push(pv(
+                                "Disagree:conversion:from_view(encode(m))!=m",
+                                format!("model (ci {}, ch {}, lens {:?}) decodes as (ci {}, ch {}, lens {:?})", m0.current_info_field, m0.current_hop_field, m0.segment_sizes(), back.current_info_field, back.current_hop_field, back.segment_sizes()),
+                            ));
+                        }
+                    }
+                    if let Some(h) = HdrC::parse(&enc) {
+                        let o = check_std(&h);
+                        pvs.extend(o.pv);
+                    }
+                }
+                _ => pvs.push(pv("Disagree:conversion:view-refuses-encoding", format!("the view constructor refuses the encoding of accepted model {}", mj))),
+            }
+        }
+        Ok(Err(_)) => {}
+        Err(msg) => pvs.push(pv("Panic:StandardPath.try_encode:model-cell", format!("{msg} on model {}", mj))),
+    }
+    let mut mis = Vec::new();
+    for (name, spec, real) in [("mvalid", &cell["mvalid"], &obs["mvalid"]), ("mrev", &cell["mrev"], &obs["mrev"]), ("mexp", &cell["mexp"], &obs["mexp"])] {
+        if spec != real {
+            mis.push(json!({"field": name, "spec": spec, "real": real}));
+        }
+    }
+    (Obs { pv: pvs, obs }, mis)
 }
